@@ -910,4 +910,1151 @@ theorem ResEff.tok {s s' : S} {y : Option JobId} {j : JobId} (h : ResEff s s' j)
     · intro Y hY; rw [h.tw] at hY; exact i Y hY
   · intro X; rw [h.tw]; exact ht.nodup X
 
+
+/-! ## part 9: a job is rejected -/
+
+theorem RejEff.tok {s s' : S} {y : Option JobId} {u : JobId} (h : RejEff s s' u) (ht : Tok s none y)
+    (htot : tot s u = 0) (hp : pend s u) (hlt : u < s.next)
+    (hk : ∀ c, c < s.next → (s.jobs c).parent = some u → pend s c → (s.jobs u).evalFailed = true)
+    (hb : ∀ X, u ∈ (s.jobs X).twins → (s.jobs X).status = Status.rejected)
+    (hy : some u = y ∨ Tw s u) : Tok s' none y := by
+  have hpend : ∀ i, pend s' i ↔ (pend s i ∧ i ≠ u) := by
+    intro i; unfold pend; rw [h.st]
+    by_cases e : i = u
+    · simp [e]
+    · simp [e]
+  have hparne : ∀ par, (s.jobs u).parent = some par → par ≠ u := by
+    intro par hpar e; have := ht.parlt u par hlt hpar; subst e; exact Nat.lt_irrefl _ this
+  have hEW : ∀ i, EW s' i = EW s i :=
+    EW_append_reject s s' h.pl (h.queue.imp id (fun ⟨par, _, _, q⟩ => ⟨par, q⟩))
+  have htot' : ∀ i, tot s' i = tot s i ∨
+      (tot s' i = tot s i + 1 ∧ (s.jobs u).parent = some i ∧ (s.jobs i).evalFailed = false) := by
+    intro i
+    unfold tot tk
+    rw [h.pl, h.infl]
+    rcases h.queue with q | ⟨par, q1, q2, q⟩
+    · left; rw [q]
+    · by_cases e : par = i
+      · subst e; right
+        refine ⟨?_, q1, q2⟩
+        rw [q]; simp [List.countP_append, evJob]; omega
+      · left; rw [q]; simp [List.countP_append, evJob, e]
+  have hmem : ∀ e, e ∈ s'.queue → e ∈ s.queue ∨ ∃ par, e = Ev.reject par ∧ (s.jobs u).parent = some par := by
+    intro e he
+    rcases h.queue with q | ⟨par, q1, _, q⟩
+    · rw [q] at he; exact Or.inl he
+    · rw [q] at he
+      rcases List.mem_append.mp he with a | a
+      · exact Or.inl a
+      · exact Or.inr ⟨par, List.mem_singleton.mp a, q1⟩
+  have hnoKids : ∀ i, noKids s' i ↔ noKids s i := by intro i; unfold noKids; rw [h.next]; simp only [h.par]
+  have hTw : ∀ i, Tw s' i ↔ Tw s i := by intro i; unfold Tw; simp only [h.tw]
+  have hefF : ∀ i, (s'.jobs i).evalFailed = false → ¬ (s.jobs u).parent = some i ∧ (s.jobs i).evalFailed = false := by
+    intro i he
+    rw [h.ef] at he
+    by_cases hpar : (s.jobs u).parent = some i
+    · simp [hpar] at he
+    · simp only [hpar, if_false] at he; exact ⟨hpar, he⟩
+  refine ⟨?_, ?_, ?_, ?_, ?_, ?_, ?_, ?_, ?_⟩
+  · intro i
+    obtain ⟨a, b, c⟩ := ht.tok i
+    rw [h.next]
+    rcases htot' i with e | ⟨e, e1, e2⟩
+    · rw [e]
+      refine ⟨a, fun hnp => ?_, fun hn => ⟨(c hn).1, ?_⟩⟩
+      · by_cases hij : i = u
+        · subst hij; exact htot
+        · exact b (fun hpi => hnp ((hpend i).mpr ⟨hpi, hij⟩))
+      · exact (hpend i).mpr ⟨(c hn).2, fun e' => absurd hlt (Nat.not_lt.mpr (e' ▸ hn))⟩
+    · obtain ⟨t0, pp⟩ := ht.par i u hlt e1 hp e2
+      rw [e, t0]
+      refine ⟨by omega, fun hnp => absurd ((hpend i).mpr ⟨pp, hparne i e1⟩) hnp, fun hn => ?_⟩
+      exact absurd (Nat.lt_trans (ht.parlt u i hlt e1) hlt) (Nat.not_lt.mpr hn)
+  · intro i c hc hpc hpp he
+    rw [h.next] at hc; rw [h.par] at hpc
+    obtain ⟨hnpar, he0⟩ := hefF i he
+    obtain ⟨hpp0, hcj⟩ := (hpend c).mp hpp
+    have hij : i ≠ u := by
+      intro e; subst e
+      have := hk c hc hpc hpp0; rw [he0] at this; simp at this
+    obtain ⟨t0, pp⟩ := ht.par i c hc hpc hpp0 he0
+    refine ⟨?_, (hpend i).mpr ⟨pp, hij⟩⟩
+    rcases htot' i with e | ⟨_, e1, _⟩
+    · rw [e]; exact t0
+    · exact absurd e1 hnpar
+  · intro i hq
+    rw [hnoKids]; apply ht.pre i
+    rcases hq with a | a | ⟨f, a⟩
+    · exact Or.inl (by rw [← hEW]; exact a)
+    · exact Or.inr (Or.inl (by rw [← h.infl]; exact a))
+    · rcases hmem _ a with b | ⟨par, b, _⟩
+      · exact Or.inr (Or.inr ⟨f, b⟩)
+      · simp at b
+  · intro i hi; rw [hEW] at hi; rw [h.tw]; exact ht.pre2 i hi
+  · intro i c hc hpc hs
+    rw [h.next] at hc; rw [h.par] at hpc; rw [h.st] at hs
+    rw [h.ef]
+    by_cases hcj : c = u
+    · subst hcj; simp [hpc]
+    · simp only [hcj, if_false] at hs
+      have := ht.rej i c hc hpc hs
+      split
+      · rfl
+      · exact this
+  · intro i _ he
+    obtain ⟨hnpar, he0⟩ := hefF i he
+    rw [h.wt]
+    have : cntPend s' i = cntPend s i := by
+      unfold cntPend
+      rw [h.next]
+      apply cntTo_congr
+      intro c _
+      unfold kidPend
+      rw [h.par, h.st]
+      by_cases hcj : c = u
+      · subst hcj; simp [hnpar]
+      · simp [hcj]
+    rw [this]; exact ht.lb i (by simp) he0
+  · intro c par hc hpc
+    rw [h.next] at hc; rw [h.par] at hpc; exact ht.parlt c par hc hpc
+  · intro X t hm
+    rw [h.tw] at hm
+    obtain ⟨a, b, c, d, e', f, g, i, k⟩ := ht.tw X t hm
+    refine ⟨?_, ?_, ?_, ?_, ?_, (hnoKids t).mpr f, fun hT => g ((hTw X).mp hT), ?_, by rw [h.next]; exact k⟩
+    · intro hpX
+      obtain ⟨hpX0, _⟩ := (hpend X).mp hpX
+      obtain ⟨pt, tt0⟩ := a hpX0
+      have htu : t ≠ u := by
+        intro e; subst e
+        have := hb X hm; unfold pend at hpX0; rw [hpX0] at this; simp at this
+      refine ⟨(hpend t).mpr ⟨pt, htu⟩, ?_⟩
+      rcases htot' t with e | ⟨_, e1, _⟩
+      · rw [e]; exact tt0
+      · exact absurd e1 (f u hlt)
+    · intro hX
+      rw [h.st] at hX ⊢
+      by_cases hXu : X = u
+      · simp [hXu] at hX
+      · simp only [hXu, if_false] at hX
+        by_cases htu : t = u
+        · subst htu; have := hb X hm; rw [hX] at this; simp at this
+        · simp only [htu, if_false]; exact b hX
+    · intro hyX hX
+      rw [h.st] at hX ⊢
+      by_cases htu : t = u
+      · simp [htu]
+      · simp only [htu, if_false]
+        by_cases hXu : X = u
+        · subst hXu
+          rcases hy with e | e
+          · exact absurd e hyX
+          · exact absurd e g
+        · simp only [hXu, if_false] at hX; exact c hyX hX
+    · intro hq; rcases hmem _ hq with h1 | ⟨par, h1, h2⟩
+      · exact d h1
+      · simp at h1; subst h1; exact absurd h2 (f u hlt)
+    · intro hq; rcases hmem _ hq with h1 | ⟨par, h1, _⟩
+      · exact e' h1
+      · simp at h1
+    · intro Y hY; rw [h.tw] at hY; exact i Y hY
+  · intro X; rw [h.tw]; exact ht.nodup X
+
+
+/-! ## part 10: serving and rejecting the twins -/
+
+theorem tok_twinsDone {y : Option JobId} (j : JobId) (l : List JobId) (s : S) (ht : Tok s none y)
+    (hl : ∀ t, t ∈ l → t ∈ (s.jobs j).twins ∧ pend s t ∧ tot s t = 0) (hnd : l.Nodup) (hnp : ¬ pend s j) :
+    Tok (l.foldl (fun s t => enqueue (setJob s t fun js => { js with wasCached := true }) (Ev.done t true)) s) none y := by
+  induction l generalizing s with
+  | nil => exact ht
+  | cons a l ih =>
+    obtain ⟨hma, hpa, hta⟩ := hl a (by simp)
+    obtain ⟨_, _, _, _, _, f, _, i, k⟩ := ht.tw j a hma
+    have fc := ftw_cached s a
+    have t1 := fc.tok ht
+    have t2 : Tok (enqueue (setJob s a fun js => { js with wasCached := true }) (Ev.done a true)) none y := by
+      refine tok_enqueue _ a t1 rfl (by intro k; simp) (by rw [fc.ft.tt]; exact hta) ((fc.ft.pendIff a).mpr hpa)
+        (by rw [fc.ft.next]; exact k)
+        (fun c hc hpc _ => absurd hpc ((fc.ft.noKidsIff a).mpr f c hc)) (fun _ => (fc.ft.noKidsIff a).mpr f) ?_
+      intro X hm
+      rw [fc.ft.tw] at hm
+      have : X = j := i X hm
+      subst this
+      exact ⟨fun h => hnp ((fc.ft.pendIff X).mp h), by simp, by simp⟩
+    rw [List.foldl_cons]
+    have hnd' := List.nodup_cons.mp hnd
+    refine ih _ t2 ?_ hnd'.2 ?_
+    · intro t htl
+      obtain ⟨h1, h2, h3⟩ := hl t (by simp [htl])
+      have hta' : t ≠ a := fun e => hnd'.1 (e ▸ htl)
+      refine ⟨?_, ?_, ?_⟩
+      · show t ∈ ((setJob s a fun js => { js with wasCached := true }).jobs j).twins
+        rw [fc.ft.tw]; exact h1
+      · show pend (setJob s a fun js => { js with wasCached := true }) t
+        exact (fc.ft.pendIff t).mpr h2
+      · rw [tot_enqueue, fc.ft.tt, h3]
+        have : ¬ a = t := fun e => hta' e.symm
+        simp [evJob, this]
+    · intro h; exact hnp ((fc.ft.pendIff j).mp h)
+
+theorem finalize_jobs (p : Prog) (s : S) (j : JobId) : (finalize p s j).jobs = s.jobs := (finalize_frame p s j).1
+
+theorem rejectTwin_tok (p : Prog) (s : S) (j t : JobId) (ht : Tok s none (some j)) (hm : t ∈ (s.jobs j).twins)
+    (hp : pend s t) (htot : tot s t = 0) (hrj : (s.jobs j).status = Status.rejected) :
+    Tok (rejectTwin p s t) none (some j) ∧
+    (∀ i, ((rejectTwin p s t).jobs i).twins = (s.jobs i).twins) ∧
+    (∀ i, ((rejectTwin p s t).jobs i).status = if i = t then Status.rejected else (s.jobs i).status) ∧
+    (∀ i, (s.jobs t).parent ≠ some i → tot (rejectTwin p s t) i = tot s i) := by
+  unfold rejectTwin
+  dsimp only
+  have f0 : FtW s (record p (setJob s t fun js => { js with wasCached := true }) t true) :=
+    (ftw_cached s t).trans (ftw_record p _ t true)
+  generalize (record p (setJob s t fun js => { js with wasCached := true }) t true) = s0 at f0
+  have t0 := f0.tok ht
+  obtain ⟨_, _, _, _, _, f, _, i, k⟩ := ht.tw j t hm
+  have eff := rejEff s0 t
+  generalize (notifyParentRejected (setJob s0 t fun js => { js with status := Status.rejected }) t) = s2 at eff
+  have t2 : Tok s2 none (some j) := by
+    refine eff.tok t0 (by rw [f0.ft.tt]; exact htot) ((f0.ft.pendIff t).mpr hp) (by rw [f0.ft.next]; exact k)
+      (fun c hc hpc _ => absurd hpc ((f0.ft.noKidsIff t).mpr f c hc)) ?_ (Or.inr ((f0.ft.twIff t).mpr ⟨j, hm⟩))
+    intro X hX
+    rw [f0.ft.tw] at hX
+    have : X = j := i X hX
+    subst this
+    rw [f0.ft.st]; exact hrj
+  have f3 := ftw_finalize p s2 t
+  refine ⟨f3.tok t2, ?_, ?_, ?_⟩
+  · intro i'; rw [f3.ft.tw, eff.tw, f0.ft.tw]
+  · intro i'; rw [f3.ft.st, eff.st, f0.ft.st]
+  · intro i' hne
+    rw [f3.ft.tt, ← f0.ft.tt]
+    unfold tot tk
+    rw [eff.pl, eff.infl]
+    rcases eff.queue with q | ⟨par, q1, _, q⟩
+    · rw [q]
+    · rw [q]
+      have : par ≠ i' := by
+        intro e; subst e; rw [f0.ft.par] at q1; exact hne q1
+      simp [List.countP_append, evJob, this]
+
+theorem rejectTwins_tok (p : Prog) (j : JobId) (l : List JobId) (s : S) (ht : Tok s none (some j))
+    (hl : ∀ t, t ∈ l → t ∈ (s.jobs j).twins ∧ pend s t ∧ tot s t = 0) (hnd : l.Nodup)
+    (hrj : (s.jobs j).status = Status.rejected) (hjl : j ∉ l) :
+    Tok (l.foldl (rejectTwin p) s) none (some j) ∧
+    (∀ i, ((l.foldl (rejectTwin p) s).jobs i).twins = (s.jobs i).twins) ∧
+    (∀ i, ((l.foldl (rejectTwin p) s).jobs i).status = if i ∈ l then Status.rejected else (s.jobs i).status) := by
+  induction l generalizing s with
+  | nil => exact ⟨ht, fun _ => rfl, fun _ => by simp⟩
+  | cons a l ih =>
+    obtain ⟨hma, hpa, hta⟩ := hl a (by simp)
+    obtain ⟨t1, tw1, st1, tt1⟩ := rejectTwin_tok p s j a ht hma hpa hta hrj
+    have hnd' := List.nodup_cons.mp hnd
+    have hja : j ≠ a := fun e => hjl (by simp [e])
+    have hjl' : j ∉ l := fun h => hjl (by simp [h])
+    have hlt_a := (ht.tw j a hma).2.2.2.2.2.2.2.2
+    have hl' : ∀ t, t ∈ l → t ∈ ((rejectTwin p s a).jobs j).twins ∧ pend (rejectTwin p s a) t ∧
+        tot (rejectTwin p s a) t = 0 := by
+      intro t htl
+      obtain ⟨h1, h2, h3⟩ := hl t (by simp [htl])
+      have hta' : t ≠ a := fun e => hnd'.1 (e ▸ htl)
+      refine ⟨by rw [tw1]; exact h1, ?_, ?_⟩
+      · unfold pend; rw [st1]; simp only [hta', if_false]; exact h2
+      · have hne : (s.jobs a).parent ≠ some t := (ht.tw j t h1).2.2.2.2.2.1 a hlt_a
+        rw [tt1 t hne]; exact h3
+    have hrj' : ((rejectTwin p s a).jobs j).status = Status.rejected := by
+      rw [st1]; simp only [hja, if_false]; exact hrj
+    obtain ⟨t2, tw2, st2⟩ := ih (rejectTwin p s a) t1 hl' hnd'.2 hrj' hjl'
+    refine ⟨t2, fun i => (tw2 i).trans (tw1 i), ?_⟩
+    intro i
+    rw [List.foldl_cons, st2, st1]
+    by_cases hia : i = a
+    · subst hia; simp
+    · by_cases hil : i ∈ l
+      · simp [hil]
+      · simp [hil, hia]
+
+theorem tok_close {s : S} {j : JobId} (ht : Tok s none (some j))
+    (hc : (s.jobs j).status = Status.rejected → ∀ t, t ∈ (s.jobs j).twins → (s.jobs t).status = Status.rejected) :
+    Tok s none none := by
+  refine { ht with tw := ?_ }
+  intro X t hm
+  obtain ⟨a, b, c, d, e', f, g, i, k⟩ := ht.tw X t hm
+  refine ⟨a, b, fun _ hX => ?_, d, e', f, g, i, k⟩
+  by_cases hXj : X = j
+  · subst hXj; exact hc hX t hm
+  · exact c (fun e => hXj (Option.some.inj e)) hX
+
+theorem tok_open {s : S} (j : JobId) (ht : Tok s none none) : Tok s none (some j) := by
+  refine { ht with tw := ?_ }
+  intro X t hm
+  obtain ⟨a, b, c, d, e', f, g, i, k⟩ := ht.tw X t hm
+  exact ⟨a, b, fun _ hX => c (by simp) hX, d, e', f, g, i, k⟩
+
+
+/-! ## part 11: `_resolve_job_main_thread`, `_reject_job_main_thread` -/
+
+theorem ResEff.tot_other {s s' : S} {j : JobId} (h : ResEff s s' j) (i : JobId) (hne : (s.jobs j).parent ≠ some i) :
+    tot s' i = tot s i := by
+  unfold tot tk
+  rw [h.pl, h.infl]
+  rcases h.queue with q | ⟨par, q1, _, _, q⟩
+  · rw [q]
+  · rw [q]
+    have : par ≠ i := by intro e; subst e; exact hne q1
+    simp [List.countP_append, evJob, this]
+
+theorem RejEff.tot_other {s s' : S} {u : JobId} (h : RejEff s s' u) (i : JobId) (hne : (s.jobs u).parent ≠ some i) :
+    tot s' i = tot s i := by
+  unfold tot tk
+  rw [h.pl, h.infl]
+  rcases h.queue with q | ⟨par, q1, _, q⟩
+  · rw [q]
+  · rw [q]
+    have : par ≠ i := by intro e; subst e; exact hne q1
+    simp [List.countP_append, evJob, this]
+
+/-- `s` is the state with the `resolve` event already taken off -/
+theorem resolveJob_tok (p : Prog) (s : S) (j : JobId) (ht : Tok s none none) (htot : tot s j = 0) (hp : pend s j)
+    (hlt : j < s.next)
+    (hk : ∀ c, c < s.next → (s.jobs c).parent = some j → pend s c → (s.jobs j).evalFailed = true)
+    (hnt : ∀ X, j ∈ (s.jobs X).twins → ¬ pend s X) : Tok (resolveJob p s j) none none := by
+  unfold resolveJob
+  dsimp only
+  have f0 := ftw_record p s j false
+  generalize record p s j false = s0 at f0
+  have t0 := f0.tok ht
+  have hp0 : pend s0 j := (f0.ft.pendIff j).mpr hp
+  have hlt0 : j < s0.next := by rw [f0.ft.next]; exact hlt
+  have eff := resEff s0 j
+  generalize (notifyParentResolved (setJob s0 j fun js => { js with status := Status.resolved }) j) = s2 at eff
+  have t2 : Tok s2 none none := by
+    refine eff.tok t0 (by rw [f0.ft.tt]; exact htot) hp0 hlt0 ?_ ?_
+    · intro c hc hpc hpp
+      rw [f0.ft.next] at hc; rw [f0.ft.par] at hpc; rw [f0.ft.pendIff] at hpp; rw [f0.ft.ef]
+      exact hk c hc hpc hpp
+    · intro X hX; rw [f0.ft.tw] at hX; rw [f0.ft.pendIff]; exact hnt X hX
+  have hnp2 : ¬ pend s2 j := by unfold pend; rw [eff.st]; simp
+  have hl : ∀ t, t ∈ (s2.jobs j).twins → t ∈ (s2.jobs j).twins ∧ pend s2 t ∧ tot s2 t = 0 := by
+    intro t hm
+    refine ⟨hm, ?_⟩
+    have hm0 : t ∈ (s0.jobs j).twins := by rw [eff.tw] at hm; exact hm
+    obtain ⟨a, _, _, _, _, f, g, _, _⟩ := t0.tw j t hm0
+    obtain ⟨pt, tt0⟩ := a hp0
+    have htj : t ≠ j := by intro e; subst e; exact g ⟨t, hm0⟩
+    refine ⟨?_, ?_⟩
+    · unfold pend; rw [eff.st]; simp only [htj, if_false]; exact pt
+    · rw [eff.tot_other t (f j hlt0)]; exact tt0
+  have t3 := tok_twinsDone j (s2.jobs j).twins s2 t2 hl (t2.nodup j) hnp2
+  exact (ftw_finalize p _ j).tok t3
+
+/-- `s` is the state with the `reject` event already taken off -/
+theorem rejectJob_tok (p : Prog) (s : S) (j : JobId) (ht : Tok s none none) (htot : tot s j = 0) (hp : pend s j)
+    (hlt : j < s.next)
+    (hk : ∀ c, c < s.next → (s.jobs c).parent = some j → pend s c → (s.jobs j).evalFailed = true)
+    (hnt : ¬ Tw s j) : Tok (rejectJob p s j) none none := by
+  rw [rejectJob_eq]
+  unfold rejectRest
+  dsimp only
+  have f0 : FtW s (record p (releaseIf p s j) j true) := (ftw_releaseIf p s j).trans (ftw_record p _ j true)
+  generalize (record p (releaseIf p s j) j true) = s0 at f0
+  have t0 := tok_open j (f0.tok ht)
+  have hp0 : pend s0 j := (f0.ft.pendIff j).mpr hp
+  have hlt0 : j < s0.next := by rw [f0.ft.next]; exact hlt
+  have hnt0 : ¬ Tw s0 j := fun h => hnt ((f0.ft.twIff j).mp h)
+  have eff := rejEff s0 j
+  generalize (notifyParentRejected (setJob s0 j fun js => { js with status := Status.rejected }) j) = s2 at eff
+  have t2 : Tok s2 none (some j) := by
+    refine eff.tok t0 (by rw [f0.ft.tt]; exact htot) hp0 hlt0 ?_ (fun X hX => absurd ⟨X, hX⟩ hnt0) (Or.inl rfl)
+    intro c hc hpc hpp
+    rw [f0.ft.next] at hc; rw [f0.ft.par] at hpc; rw [f0.ft.pendIff] at hpp; rw [f0.ft.ef]
+    exact hk c hc hpc hpp
+  have hrj2 : (s2.jobs j).status = Status.rejected := by rw [eff.st]; simp
+  have hl : ∀ t, t ∈ (s2.jobs j).twins → t ∈ (s2.jobs j).twins ∧ pend s2 t ∧ tot s2 t = 0 := by
+    intro t hm
+    refine ⟨hm, ?_⟩
+    have hm0 : t ∈ (s0.jobs j).twins := by rw [eff.tw] at hm; exact hm
+    obtain ⟨a, _, _, _, _, f, g, _, _⟩ := t0.tw j t hm0
+    obtain ⟨pt, tt0⟩ := a hp0
+    have htj : t ≠ j := by intro e; subst e; exact g ⟨t, hm0⟩
+    refine ⟨?_, ?_⟩
+    · unfold pend; rw [eff.st]; simp only [htj, if_false]; exact pt
+    · rw [eff.tot_other t (f j hlt0)]; exact tt0
+  have hjl : j ∉ (s2.jobs j).twins := by
+    intro h; rw [eff.tw] at h; exact hnt0 ⟨j, h⟩
+  obtain ⟨t3, tw3, st3⟩ := rejectTwins_tok p j (s2.jobs j).twins s2 t2 hl (t2.nodup j) hrj2 hjl
+  generalize (List.foldl (rejectTwin p) s2 (s2.jobs j).twins) = s3 at t3 tw3 st3
+  have f4 := ftw_finalize p s3 j
+  refine tok_close (f4.tok t3) ?_
+  intro _ t hm
+  rw [f4.ft.tw, tw3] at hm
+  rw [f4.ft.st, st3]; simp [hm]
+
+
+/-! ## part 12: `_exec_job_main_thread`, executor reports -/
+
+theorem tok_cachedExit (p : Prog) (s : S) (j : JobId) (ev : Ev) (hev : (∃ f, ev = Ev.done j f) ∨ ev = Ev.reject j)
+    (ht : Tok s none none) (htot : tot s j = 0) (hp : pend s j) (hlt : j < s.next) (hnk : noKids s j)
+    (hnt : ¬ Tw s j) :
+    Tok (enqueue (checkPending p (setJob s j fun js => { js with wasCached := true })) ev) none none := by
+  have fc := (ftw_cached s j).trans (ftw_checkPending p _)
+  have t1 := fc.tok ht
+  have hnk1 := (fc.ft.noKidsIff j).mpr hnk
+  refine tok_enqueue ev j t1 ?_ ?_ (by rw [fc.ft.tt]; exact htot) ((fc.ft.pendIff j).mpr hp)
+    (by rw [fc.ft.next]; exact hlt) (fun c hc hpc _ => absurd hpc (hnk1 c hc)) (fun _ => hnk1)
+    (fun X hm => absurd ((fc.ft.twIff j).mp ⟨X, hm⟩) hnt)
+  · rcases hev with ⟨f, rfl⟩ | rfl <;> rfl
+  · intro k; rcases hev with ⟨f, rfl⟩ | rfl <;> simp
+
+/-- `s` is the state with the `exec` event already taken off -/
+theorem execJob_tok (p : Prog) (s : S) (j : JobId) (ht : Tok s none none) (htot : tot s j = 0) (hp : pend s j)
+    (hlt : j < s.next) (hnk : noKids s j) (htwj : (s.jobs j).twins = []) (hnt : ¬ Tw s j)
+    (hreg : ∀ k t0, lookupPending s k = some t0 → pend s t0 ∧ ¬ Tw s t0 ∧ t0 ≠ j ∧ EW s t0 = 0) :
+    Tok (execJob p s j) none none := by
+  unfold execJob
+  dsimp only
+  split
+  · rename_i t0 heq
+    have hlk : lookupPending s ((spec p s j).key, (spec p s j).ctx) = some t0 := by
+      split at heq
+      · exact heq
+      · simp at heq
+    obtain ⟨h1, h2, h3, h4⟩ := hreg _ t0 hlk
+    exact (ftw_checkPending p _).tok (tok_addTwin ht htot hp hlt hnk htwj hnt h1 h2 h3 h4)
+  · split
+    · rename_i isErr _
+      exact tok_cachedExit p s j _ (by cases isErr <;> simp) ht htot hp hlt hnk hnt
+    · exact tok_cachedExit p s j _ (Or.inl ⟨true, rfl⟩) ht htot hp hlt hnk hnt
+    · exact tok_cachedExit p s j _ (Or.inl ⟨false, rfl⟩) ht htot hp hlt hnk hnt
+    · split
+      · exact tok_pendAppend j ht htot hp hlt hnk htwj hnt
+      · have f1 : FtW s (if p.dryrun = true then s else consume p s j) := by
+          split
+          · exact FtW.refl s
+          · exact ftw_consume p s j
+        generalize (if p.dryrun = true then s else consume p s j) = s1 at f1
+        have t1 := f1.tok ht
+        have htot1 : tot s1 j = 0 := by rw [f1.ft.tt]; exact htot
+        have hp1 : pend s1 j := (f1.ft.pendIff j).mpr hp
+        have hlt1 : j < s1.next := by rw [f1.ft.next]; exact hlt
+        have hnk1 : noKids s1 j := (f1.ft.noKidsIff j).mpr hnk
+        have hnt1 : ¬ Tw s1 j := fun h => hnt ((f1.ft.twIff j).mp h)
+        have htw1 : (s1.jobs j).twins = [] := by rw [f1.ft.tw]; exact htwj
+        split
+        · exact tok_enqueue _ j t1 rfl (by intro k; simp) htot1 hp1 hlt1
+            (fun c hc hpc _ => absurd hpc (hnk1 c hc)) (fun ⟨_, h⟩ => by simp at h)
+            (fun X hm => absurd ⟨X, hm⟩ hnt1)
+        · split
+          · exact t1
+          · have f2 : FtW s1 (if (!(spec p s j).prov || (lookupPending s1 ((spec p s j).key, (spec p s j).ctx)).isSome) = true
+                then s1 else { s1 with pendingJobs := s1.pendingJobs ++ [(((spec p s j).key, (spec p s j).ctx), j)] }) := by
+              split
+              · exact FtW.refl s1
+              · exact ftw_of_eq rfl rfl rfl rfl rfl
+            generalize (if (!(spec p s j).prov || (lookupPending s1 ((spec p s j).key, (spec p s j).ctx)).isSome) = true
+                then s1 else { s1 with pendingJobs := s1.pendingJobs ++ [(((spec p s j).key, (spec p s j).ctx), j)] }) = s2 at f2
+            exact tok_setInfl j _ (f2.tok t1) (by rw [f2.ft.tt]; exact htot1) ((f2.ft.pendIff j).mpr hp1)
+              (by rw [f2.ft.next]; exact hlt1) ((f2.ft.noKidsIff j).mpr hnk1) (by rw [f2.ft.tw]; exact htw1)
+              (fun h => hnt1 ((f2.ft.twIff j).mp h))
+
+theorem complete_tok (p : Prog) (s : S) (j : JobId) (ht : Tok s none none) (hi : s.inflight j = true)
+    (hnt : ¬ Tw s j) : Tok (complete p s j) none none := by
+  unfold complete
+  have hnk : noKids s j := ht.pre j (Or.inr (Or.inl hi))
+  obtain ⟨a, b, c⟩ := ht.tok j
+  have h1 : 1 ≤ tot s j := by unfold tot; simp [hi]
+  have hp : pend s j := by
+    by_cases hp : pend s j
+    · exact hp
+    · have := b hp; omega
+  have hlt : j < s.next := by
+    by_cases hlt : j < s.next
+    · exact hlt
+    · have := (c (Nat.le_of_not_lt hlt)).1; omega
+  have t1 := tok_clearInfl j ht
+  have htot1 : tot { s with inflight := fun i => if i = j then false else s.inflight i } j = 0 := by
+    have : tot s j = 1 := by omega
+    unfold tot tk at this ⊢
+    simp [hi] at this ⊢
+    omega
+  have hp1 : pend { s with inflight := fun i => if i = j then false else s.inflight i } j := hp
+  have hnk1 : noKids { s with inflight := fun i => if i = j then false else s.inflight i } j := hnk
+  have hnt1 : ¬ Tw { s with inflight := fun i => if i = j then false else s.inflight i } j := hnt
+  have hlt1 : j < ({ s with inflight := fun i => if i = j then false else s.inflight i } : S).next := hlt
+  generalize ({ s with inflight := fun i => if i = j then false else s.inflight i } : S) = s1 at t1 htot1 hp1 hnk1 hnt1 hlt1
+  dsimp only
+  refine tok_enqueue _ j t1 ?_ ?_ htot1 hp1 hlt1 (fun c hc hpc _ => absurd hpc (hnk1 c hc)) (fun _ => hnk1)
+    (fun X hm => absurd ⟨X, hm⟩ hnt1)
+  · split <;> rfl
+  · intro k; split <;> simp
+
+
+/-! ## part 13: every reachable state satisfies `Tok` -/
+
+theorem tok_head_facts {s : S} (e : Ev) (rest : List Ev) (hq : s.queue = e :: rest) (ht : Tok s none none) :
+    tot s (evJob e) = 1 ∧ tot (tl s) (evJob e) = 0 ∧ pend s (evJob e) ∧ evJob e < s.next := by
+  have hm : e ∈ s.queue := by rw [hq]; simp
+  have h1 := tot_pos_of_mem hm
+  obtain ⟨a, b, c⟩ := ht.tok (evJob e)
+  have h2 := tot_tl s e rest hq (evJob e)
+  simp only [if_true] at h2
+  refine ⟨by omega, by omega, ?_, ?_⟩
+  · by_cases hp : pend s (evJob e)
+    · exact hp
+    · have := b hp; omega
+  · by_cases hlt : evJob e < s.next
+    · exact hlt
+    · have := (c (Nat.le_of_not_lt hlt)).1; omega
+
+theorem pop_tok (p : Prog) (s : S) (hinv : Inv p s) (ht : Tok s none none)
+    (hreg : ∀ k t0, lookupPending s k = some t0 → pend s t0 ∧ ¬ Tw s t0 ∧ EW s t0 = 0) :
+    Tok (pop p s) none none := by
+  unfold pop
+  split
+  · exact ht
+  · rename_i e rest hq
+    rw [tl_eq s e rest hq]
+    have tt := tok_tl e rest hq ht
+    have hf := tok_head_facts e rest hq ht
+    have hm : e ∈ s.queue := by rw [hq]; simp
+    cases e with
+    | exec j =>
+      simp only [evJob] at hf
+      obtain ⟨h1, h0, hp, hlt⟩ := hf
+      have hEW := tl_EW_eq s (Ev.exec j) rest hq j
+      simp only [if_true] at hEW
+      have hEW1 : 1 ≤ EW s j := by omega
+      obtain ⟨_, _, c, _, _⟩ := exec_head_facts p s j rest hq hinv.core
+      refine execJob_tok p (tl s) j tt h0 hp hlt (ht.pre j (Or.inl hEW1)) (ht.pre2 j hEW1)
+        (fun ⟨X, hX⟩ => c X hX) ?_
+      intro k t0 hlk
+      obtain ⟨a1, a2, a3⟩ := hreg k t0 hlk
+      refine ⟨a1, a2, ?_, Nat.le_zero.mp (a3 ▸ tl_EW_le s t0)⟩
+      intro e; subst e; omega
+    | done j f =>
+      simp only [evJob] at hf
+      obtain ⟨h1, h0, hp, hlt⟩ := hf
+      refine doneJob_tok p (tl s) j f tt h0 hp hlt (ht.pre j (Or.inr (Or.inr ⟨f, hm⟩))) ?_ ?_
+      · intro hff ⟨X, hX⟩
+        subst hff
+        exact (ht.tw X j hX).2.2.2.2.1 hm
+      · intro X hX hpX
+        have := ((ht.tw X j hX).1 hpX).2
+        omega
+    | resolve j =>
+      simp only [evJob] at hf
+      obtain ⟨h1, h0, hp, hlt⟩ := hf
+      refine resolveJob_tok p (tl s) j tt h0 hp hlt ?_ ?_
+      · intro c hc hpc hpp
+        by_cases he : (s.jobs j).evalFailed = true
+        · exact he
+        · have := (ht.par j c hc hpc hpp (by simpa using he)).1; omega
+      · intro X hX hpX
+        have := ((ht.tw X j hX).1 hpX).2
+        omega
+    | reject j =>
+      simp only [evJob] at hf
+      obtain ⟨h1, h0, hp, hlt⟩ := hf
+      refine rejectJob_tok p (tl s) j tt h0 hp hlt ?_ ?_
+      · intro c hc hpc hpp
+        by_cases he : (s.jobs j).evalFailed = true
+        · exact he
+        · have := (ht.par j c hc hpc hpp (by simpa using he)).1; omega
+      · intro ⟨X, hX⟩
+        exact (ht.tw X j hX).2.2.2.1 hm
+
+theorem tok_init : Tok init none none := by
+  have hj : ∀ j, (init.jobs j).status = Status.pending ∧ (init.jobs j).twins = [] ∧ (init.jobs j).evalFailed = false ∧
+      (init.jobs j).waiting = 0 ∧ (init.jobs j).parent = none := by
+    intro j; simp only [init]; split <;> exact ⟨rfl, rfl, rfl, rfl, rfl⟩
+  have htot : ∀ j, tot init j = if j = 0 then 1 else 0 := by
+    intro j; unfold tot tk; simp only [init, List.countP_cons, List.countP_nil, evJob, beq_iff_eq]
+    by_cases h : j = 0
+    · subst h; simp
+    · have : ¬ 0 = j := fun e => h e.symm
+      simp [h, this]
+  refine ⟨?_, ?_, ?_, fun j _ => (hj j).2.1, ?_, ?_, ?_, ?_, ?_⟩
+  · intro j
+    rw [htot]
+    refine ⟨by split <;> omega, fun h => absurd (hj j).1 h, fun h => ⟨?_, (hj j).1⟩⟩
+    have h1 : (1 : Nat) ≤ j := h
+    have : j ≠ 0 := by intro e; rw [e] at h1; exact absurd h1 (by decide)
+    simp [this]
+  · intro j c _ hp; rw [(hj c).2.2.2.2] at hp; simp at hp
+  · intro j _ c _ hp; rw [(hj c).2.2.2.2] at hp; simp at hp
+  · intro j c _ hp; rw [(hj c).2.2.2.2] at hp; simp at hp
+  · intro j _ _
+    have : cntPend init j = 0 := by
+      apply cntPend_zero_of_noKids
+      intro c _ hp; rw [(hj c).2.2.2.2] at hp; simp at hp
+    rw [this]; exact Nat.zero_le _
+  · intro c par _ hp; rw [(hj c).2.2.2.2] at hp; simp at hp
+  · intro X t hm; rw [(hj X).2.1] at hm; simp at hm
+  · intro X; rw [(hj X).2.1]; simp
+
+/-- what a registration in `_pending_jobs` guarantees (real run: lifecycle invariant; dry run: none exist) -/
+theorem reg_facts (p : Prog) (s : S) (h : Reachable p s) (k : Nat × Nat) (t0 : JobId)
+    (hlk : lookupPending s k = some t0) : pend s t0 ∧ ¬ Tw s t0 ∧ EW s t0 = 0 := by
+  by_cases hd : p.dryrun = true
+  · have := lookupPending_nil s k (reachable_dryTok p hd s h).pj
+    rw [this] at hlk; simp at hlk
+  · have hl := reachable_live p (by simpa using hd) s h
+    obtain ⟨_, _, c, d, _, f⟩ := hl.reg k t0 (mem_of_lookupPending hlk)
+    exact ⟨f (by simp), c, d⟩
+
+theorem reachable_tok (p : Prog) (s : S) (h : Reachable p s) : Tok s none none := by
+  induction h with
+  | init => exact tok_init
+  | step hr hs ih =>
+    cases hs with
+    | pop _ _ => exact pop_tok p _ (reachable_inv p _ hr) ih (reg_facts p _ hr)
+    | complete j _ hi =>
+      refine complete_tok p _ j ih hi ?_
+      intro ⟨X, hX⟩
+      have := ((reachable_inv p _ hr).core.twins_quiet X j hX).2.1
+      rw [hi] at this; simp at this
+
+
+/-! ## part 14: what one handler changes (no invariant needed) -/
+
+/-- effect of a handler that settles nobody -/
+structure Obs (s s' : S) : Prop where
+  next : s.next ≤ s'.next
+  specOf : ∀ i, i < s.next → s'.specOf i = s.specOf i
+  st : ∀ i, (s'.jobs i).status = (s.jobs i).status ∨ (s.next ≤ i ∧ (s'.jobs i).status = Status.pending)
+  cse : s'.cse = s.cse
+  tw : ∀ i t, i < s.next → t ∈ (s.jobs i).twins → t ∈ (s'.jobs i).twins
+
+theorem Obs.refl (s : S) : Obs s s := ⟨Nat.le_refl _, fun _ _ => rfl, fun _ => Or.inl rfl, rfl, fun _ _ _ h => h⟩
+
+theorem Obs.trans {a b c : S} (h1 : Obs a b) (h2 : Obs b c) : Obs a c := by
+  refine ⟨Nat.le_trans h1.next h2.next, ?_, ?_, h2.cse.trans h1.cse, ?_⟩
+  · intro i hi; rw [h2.specOf i (Nat.lt_of_lt_of_le hi h1.next), h1.specOf i hi]
+  · intro i
+    rcases h2.st i with e | ⟨e1, e2⟩
+    · rw [e]; exact h1.st i
+    · exact Or.inr ⟨Nat.le_trans h1.next e1, e2⟩
+  · intro i t hi hm; exact h2.tw i t (Nat.lt_of_lt_of_le hi h1.next) (h1.tw i t hi hm)
+
+theorem obs_of_eq {s s' : S} (h1 : s'.next = s.next) (h2 : s'.specOf = s.specOf) (h3 : s'.jobs = s.jobs)
+    (h4 : s'.cse = s.cse) : Obs s s' :=
+  ⟨by rw [h1]; exact Nat.le_refl _, fun _ _ => by rw [h2], fun _ => Or.inl (by rw [h3]), h4, fun _ _ _ h => by rw [h3]; exact h⟩
+
+theorem obs_setJob (s : S) (j : JobId) (f : JobSt → JobSt) (hst : ∀ js, (f js).status = js.status)
+    (htw : ∀ js t, t ∈ js.twins → t ∈ (f js).twins) : Obs s (setJob s j f) := by
+  refine ⟨Nat.le_refl _, fun _ _ => rfl, ?_, rfl, ?_⟩
+  · intro i; left; simp only [setJob]; split
+    · exact hst _
+    · rfl
+  · intro i t _ hm; simp only [setJob]; split
+    · exact htw _ t hm
+    · exact hm
+
+theorem obs_checkPending (p : Prog) (s : S) : Obs s (checkPending p s) := obs_of_eq rfl rfl rfl rfl
+theorem obs_enqueue (s : S) (e : Ev) : Obs s (enqueue s e) := obs_of_eq rfl rfl rfl rfl
+theorem obs_consume (p : Prog) (s : S) (j : JobId) : Obs s (consume p s j) := obs_of_eq rfl rfl rfl rfl
+theorem obs_release (p : Prog) (s : S) (j : JobId) : Obs s (release p s j) := obs_of_eq rfl rfl rfl rfl
+
+theorem obs_releaseIf (p : Prog) (s : S) (j : JobId) : Obs s (releaseIf p s j) := by
+  unfold releaseIf; split
+  · exact (obs_release p s j).trans (obs_checkPending p _)
+  · exact Obs.refl s
+
+theorem obs_cached (s : S) (j : JobId) : Obs s (setJob s j fun js => { js with wasCached := true }) :=
+  obs_setJob s j _ (fun _ => rfl) (fun _ _ h => h)
+
+theorem obs_execJob (p : Prog) (s : S) (j : JobId) : Obs s (execJob p s j) := by
+  unfold execJob
+  dsimp only
+  split
+  · rename_i t0 _
+    exact (obs_setJob s t0 (fun js => { js with twins := js.twins ++ [j] }) (fun _ => rfl)
+      (fun _ _ h => List.mem_append_left _ h)).trans (obs_checkPending p _)
+  · have hc : ∀ ev, Obs s (enqueue (checkPending p (setJob s j fun js => { js with wasCached := true })) ev) :=
+      fun ev => ((obs_cached s j).trans (obs_checkPending p _)).trans (obs_enqueue _ ev)
+    split
+    · exact hc _
+    · exact hc _
+    · exact hc _
+    · split
+      · exact obs_of_eq rfl rfl rfl rfl
+      · have f1 : Obs s (if p.dryrun = true then s else consume p s j) := by
+          split
+          · exact Obs.refl s
+          · exact obs_consume p s j
+        generalize (if p.dryrun = true then s else consume p s j) = s1 at f1
+        split
+        · exact f1.trans (obs_enqueue _ _)
+        · split
+          · exact f1
+          · have f2 : Obs s1 (if (!(spec p s j).prov || (lookupPending s1 ((spec p s j).key, (spec p s j).ctx)).isSome) = true
+                then s1 else { s1 with pendingJobs := s1.pendingJobs ++ [(((spec p s j).key, (spec p s j).ctx), j)] }) := by
+              split
+              · exact Obs.refl s1
+              · exact obs_of_eq rfl rfl rfl rfl
+            generalize (if (!(spec p s j).prov || (lookupPending s1 ((spec p s j).key, (spec p s j).ctx)).isSome) = true
+                then s1 else { s1 with pendingJobs := s1.pendingJobs ++ [(((spec p s j).key, (spec p s j).ctx), j)] }) = s2 at f2
+            exact (f1.trans f2).trans (obs_of_eq rfl rfl rfl rfl)
+
+theorem obs_spawnOne (s : S) (j : JobId) (c : SpecId) : Obs s (spawnOne s j c) := by
+  refine ⟨Nat.le_succ _, ?_, ?_, rfl, ?_⟩
+  · intro i hi; simp [spawnOne, Nat.ne_of_lt hi]
+  · intro i
+    by_cases hin : i = s.next
+    · subst hin; right; rw [spawnOne_jobs_new]; exact ⟨Nat.le_refl _, rfl⟩
+    · left; rw [spawnOne_jobs_ne s j c i hin]
+  · intro i t hi hm; rw [spawnOne_jobs_ne s j c i (Nat.ne_of_lt hi)]; exact hm
+
+theorem obs_spawn (s : S) (j : JobId) (cs : List SpecId) : Obs s (spawn s j cs) := by
+  unfold spawn
+  have h1 : Obs s (cs.foldl (fun s c => spawnOne s j c) s) := by
+    induction cs generalizing s with
+    | nil => exact Obs.refl s
+    | cons c cs ih => exact (obs_spawnOne s j c).trans (ih _)
+  dsimp only
+  have h2 := h1.trans (obs_setJob _ j (fun js => { js with waiting := cs.length }) (fun _ => rfl) (fun _ _ h => h))
+  split
+  · exact h2.trans (obs_enqueue _ _)
+  · exact h2
+
+theorem obs_doneJob (p : Prog) (s : S) (j : JobId) (f : Bool) : Obs s (doneJob p s j f) := by
+  rw [doneJob_eq]
+  have f0 := obs_releaseIf p s j
+  generalize releaseIf p s j = s1 at f0
+  unfold doneRest
+  have f1 : Obs s1 (if (!(s1.jobs j).wasCached && (spec p s1 j).prov) = true then
+      { s1 with evalTable := (spec p s1 j).key :: s1.evalTable } else s1) := by
+    split
+    · exact obs_of_eq rfl rfl rfl rfl
+    · exact Obs.refl s1
+  generalize (if (!(s1.jobs j).wasCached && (spec p s1 j).prov) = true then
+      { s1 with evalTable := (spec p s1 j).key :: s1.evalTable } else s1) = s2 at f1
+  dsimp only
+  split
+  · exact (f0.trans f1).trans (obs_enqueue _ _)
+  · exact (f0.trans f1).trans (obs_spawn _ _ _)
+
+theorem obs_complete (p : Prog) (s : S) (j : JobId) : Obs s (complete p s j) := by
+  unfold complete
+  exact (obs_of_eq rfl rfl rfl rfl : Obs s { s with inflight := fun i => if i = j then false else s.inflight i }).trans
+    (obs_enqueue _ _)
+
+
+/-! ## part 15: what a settling handler changes -/
+
+def outcome (b : Bool) : Status := if b then Status.rejected else Status.resolved
+def entryOf (p : Prog) (s : S) (u : JobId) (b : Bool) : CseEntry :=
+  { key := (spec p s u).key, ctx := (spec p s u).ctx, isErr := b }
+
+/-- the jobs in `U` are settled with outcome `b` and may each record one entry; nothing else changes that
+the theorems below look at -/
+structure SetObs (p : Prog) (s s' : S) (U : List JobId) (b : Bool) : Prop where
+  next : s'.next = s.next
+  specOf : s'.specOf = s.specOf
+  tw : ∀ i, (s'.jobs i).twins = (s.jobs i).twins
+  st : ∀ i, (s'.jobs i).status = if i ∈ U then outcome b else (s.jobs i).status
+  cse : ∀ e, e ∈ s'.cse → e ∈ s.cse ∨ ∃ u, u ∈ U ∧ (spec p s u).prov = true ∧ e = entryOf p s u b
+
+theorem SetObs.trans {p : Prog} {a b c : S} {U V : List JobId} {o : Bool} (h1 : SetObs p a b U o)
+    (h2 : SetObs p b c V o) : SetObs p a c (U ++ V) o := by
+  have hsp : ∀ u, spec p b u = spec p a u := fun u => same_spec h1.specOf u
+  refine ⟨h2.next.trans h1.next, h2.specOf.trans h1.specOf, fun i => (h2.tw i).trans (h1.tw i), ?_, ?_⟩
+  · intro i
+    rw [h2.st, h1.st]
+    by_cases hV : i ∈ V
+    · simp [hV]
+    · by_cases hU : i ∈ U
+      · simp [hU]
+      · simp [hU, hV]
+  · intro e he
+    rcases h2.cse e he with a1 | ⟨u, hu, hp, he'⟩
+    · rcases h1.cse e a1 with a2 | ⟨u, hu, hp, he'⟩
+      · exact Or.inl a2
+      · exact Or.inr ⟨u, List.mem_append_left _ hu, hp, he'⟩
+    · refine Or.inr ⟨u, List.mem_append_right _ hu, by rw [← hsp]; exact hp, ?_⟩
+      rw [he']; unfold entryOf; rw [hsp]
+
+/-- nothing settles, nothing is recorded -/
+theorem setObs_quiet {p : Prog} {s s' : S} (o : Bool) (h1 : s'.next = s.next) (h2 : s'.specOf = s.specOf)
+    (h3 : ∀ i, (s'.jobs i).twins = (s.jobs i).twins) (h4 : ∀ i, (s'.jobs i).status = (s.jobs i).status)
+    (h5 : s'.cse = s.cse) : SetObs p s s' [] o :=
+  ⟨h1, h2, h3, fun i => by simp [h4], fun e he => Or.inl (by rw [← h5]; exact he)⟩
+
+theorem setObs_ftw {p : Prog} {s s' : S} (o : Bool) (h : FtW s s') (h2 : s'.specOf = s.specOf) (h5 : s'.cse = s.cse) :
+    SetObs p s s' [] o := setObs_quiet o h.ft.next h2 h.ft.tw h.ft.st h5
+
+theorem record_cse (p : Prog) (s : S) (u : JobId) (b : Bool) (e : CseEntry) (he : e ∈ (record p s u b).cse) :
+    e ∈ s.cse ∨ ((spec p s u).prov = true ∧ e = entryOf p s u b) := by
+  unfold record at he
+  dsimp only at he
+  split at he
+  · rename_i hp
+    rcases List.mem_append.mp he with a | a
+    · exact Or.inl a
+    · exact Or.inr ⟨hp, List.mem_singleton.mp a⟩
+  · exact Or.inl he
+
+theorem finalize_eqs (p : Prog) (s : S) (j : JobId) :
+    (finalize p s j).next = s.next ∧ (finalize p s j).specOf = s.specOf ∧ (finalize p s j).cse = s.cse := by
+  unfold finalize; dsimp only; split <;> exact ⟨rfl, rfl, rfl⟩
+
+theorem releaseIf_eqs (p : Prog) (s : S) (j : JobId) :
+    (releaseIf p s j).specOf = s.specOf ∧ (releaseIf p s j).cse = s.cse := by
+  unfold releaseIf; split <;> exact ⟨rfl, rfl⟩
+
+/-- `record; status := rejected; notifyParentRejected` -/
+theorem setObs_rejCore (p : Prog) (s : S) (u : JobId) :
+    SetObs p s (notifyParentRejected (setJob (record p s u true) u fun js => { js with status := Status.rejected }) u)
+      [u] true := by
+  have f0 := ftw_record p s u true
+  have hs0 : (record p s u true).specOf = s.specOf := (grow_record p s u true).specOf
+  have hc0 := record_cse p s u true
+  generalize record p s u true = s0 at f0 hs0 hc0
+  have eff := rejEff s0 u
+  have hsame := (same_setJob s0 u (fun js => { js with status := Status.rejected })).trans
+    (same_notifyParentRejected (setJob s0 u fun js => { js with status := Status.rejected }) u)
+  generalize (notifyParentRejected (setJob s0 u fun js => { js with status := Status.rejected }) u) = s2 at eff hsame
+  refine ⟨eff.next.trans f0.ft.next, eff.specOf.trans hs0, fun i => (eff.tw i).trans (f0.ft.tw i), ?_, ?_⟩
+  · intro i; rw [eff.st, f0.ft.st]; simp [outcome]
+  · intro e he
+    rw [hsame.cse] at he
+    rcases hc0 e he with a | ⟨a1, a2⟩
+    · exact Or.inl a
+    · exact Or.inr ⟨u, by simp, a1, a2⟩
+
+/-- `record; status := resolved; notifyParentResolved` -/
+theorem setObs_resCore (p : Prog) (s : S) (u : JobId) :
+    SetObs p s (notifyParentResolved (setJob (record p s u false) u fun js => { js with status := Status.resolved }) u)
+      [u] false := by
+  have f0 := ftw_record p s u false
+  have hs0 : (record p s u false).specOf = s.specOf := (grow_record p s u false).specOf
+  have hc0 := record_cse p s u false
+  generalize record p s u false = s0 at f0 hs0 hc0
+  have eff := resEff s0 u
+  have hsame := (same_setJob s0 u (fun js => { js with status := Status.resolved })).trans
+    (same_notifyParentResolved (setJob s0 u fun js => { js with status := Status.resolved }) u)
+  generalize (notifyParentResolved (setJob s0 u fun js => { js with status := Status.resolved }) u) = s2 at eff hsame
+  refine ⟨eff.next.trans f0.ft.next, eff.specOf.trans hs0, fun i => (eff.tw i).trans (f0.ft.tw i), ?_, ?_⟩
+  · intro i; rw [eff.st, f0.ft.st]; simp [outcome]
+  · intro e he
+    rw [hsame.cse] at he
+    rcases hc0 e he with a | ⟨a1, a2⟩
+    · exact Or.inl a
+    · exact Or.inr ⟨u, by simp, a1, a2⟩
+
+theorem setObs_rejectTwin (p : Prog) (s : S) (t : JobId) : SetObs p s (rejectTwin p s t) [t] true := by
+  unfold rejectTwin
+  dsimp only
+  have h1 : SetObs p s (setJob s t fun js => { js with wasCached := true }) [] true :=
+    setObs_ftw true (ftw_cached s t) rfl rfl
+  have h2 := setObs_rejCore p (setJob s t fun js => { js with wasCached := true }) t
+  have h3 := h1.trans h2
+  generalize (notifyParentRejected (setJob (record p (setJob s t fun js => { js with wasCached := true }) t true) t
+    fun js => { js with status := Status.rejected }) t) = s2 at h3
+  obtain ⟨g1, g2, g3⟩ := finalize_eqs p s2 t
+  have h4 : SetObs p s2 (finalize p s2 t) [] true := setObs_ftw true (ftw_finalize p s2 t) g2 g3
+  have := h3.trans h4
+  simpa using this
+
+theorem setObs_rejectTwins (p : Prog) (l : List JobId) (s : S) : SetObs p s (l.foldl (rejectTwin p) s) l true := by
+  induction l generalizing s with
+  | nil => exact setObs_quiet true rfl rfl (fun _ => rfl) (fun _ => rfl) rfl
+  | cons a l ih =>
+    have := (setObs_rejectTwin p s a).trans (ih (rejectTwin p s a))
+    simpa using this
+
+theorem setObs_rejectJob (p : Prog) (s : S) (j : JobId) :
+    SetObs p s (rejectJob p s j) (j :: (s.jobs j).twins) true := by
+  rw [rejectJob_eq]
+  unfold rejectRest
+  dsimp only
+  have f0 := ftw_releaseIf p s j
+  obtain ⟨r1, r2⟩ := releaseIf_eqs p s j
+  have h0 : SetObs p s (releaseIf p s j) [] true := setObs_ftw true f0 r1 r2
+  generalize releaseIf p s j = s1 at h0
+  have h1 := h0.trans (setObs_rejCore p s1 j)
+  generalize (notifyParentRejected (setJob (record p s1 j true) j fun js => { js with status := Status.rejected }) j) = s2 at h1
+  have htw : (s2.jobs j).twins = (s.jobs j).twins := h1.tw j
+  have h2 := h1.trans (setObs_rejectTwins p (s2.jobs j).twins s2)
+  generalize (List.foldl (rejectTwin p) s2 (s2.jobs j).twins) = s3 at h2
+  obtain ⟨g1, g2, g3⟩ := finalize_eqs p s3 j
+  have h4 : SetObs p s3 (finalize p s3 j) [] true := setObs_ftw true (ftw_finalize p s3 j) g2 g3
+  have := h2.trans h4
+  rw [htw] at this
+  simpa using this
+
+theorem twinsDone_quiet (p : Prog) (l : List JobId) (s : S) :
+    SetObs p s (l.foldl (fun s t => enqueue (setJob s t fun js => { js with wasCached := true }) (Ev.done t true)) s)
+      [] false := by
+  induction l generalizing s with
+  | nil => exact setObs_quiet false rfl rfl (fun _ => rfl) (fun _ => rfl) rfl
+  | cons a l ih =>
+    have h1 : SetObs p s (enqueue (setJob s a fun js => { js with wasCached := true }) (Ev.done a true)) [] false :=
+      setObs_quiet false rfl rfl (ftw_cached s a).ft.tw (ftw_cached s a).ft.st rfl
+    have := h1.trans (ih _)
+    simpa using this
+
+theorem setObs_resolveJob (p : Prog) (s : S) (j : JobId) :
+    SetObs p s (resolveJob p s j) [j] false ∧ ∀ t, t ∈ (s.jobs j).twins → Ev.done t true ∈ (resolveJob p s j).queue := by
+  unfold resolveJob
+  dsimp only
+  have h1 := setObs_resCore p s j
+  generalize (notifyParentResolved (setJob (record p s j false) j fun js => { js with status := Status.resolved }) j) = s2 at h1
+  have htw : (s2.jobs j).twins = (s.jobs j).twins := h1.tw j
+  have h2 := h1.trans (twinsDone_quiet p (s2.jobs j).twins s2)
+  obtain ⟨_, m3⟩ := twinsDone_fr (s2.jobs j).twins s2
+  generalize (List.foldl (fun s t => enqueue (setJob s t fun js => { js with wasCached := true }) (Ev.done t true)) s2
+    (s2.jobs j).twins) = s3 at h2 m3
+  obtain ⟨g1, g2, g3⟩ := finalize_eqs p s3 j
+  have h4 : SetObs p s3 (finalize p s3 j) [] false := setObs_ftw false (ftw_finalize p s3 j) g2 g3
+  have := h2.trans h4
+  refine ⟨by simpa using this, ?_⟩
+  intro t ht
+  rw [(finalize_frame p s3 j).2]
+  exact m3 t (by rw [htw]; exact ht)
+
+
+/-! ## part 16: the step theorems -/
+
+theorem pop_eq_handle (p : Prog) (s : S) (e : Ev) (rest : List Ev) (hq : s.queue = e :: rest) :
+    pop p s = handle p (tl s) e := by
+  unfold pop; rw [hq]; dsimp only; rw [tl_eq s e rest hq]
+
+/-- what one step does to the status of the jobs, given the token invariant of the source state -/
+theorem step_status (p : Prog) (s s' : S) (ht : Tok s none none) (hs : Step p s s') (i : JobId) :
+    (s'.jobs i).status = (s.jobs i).status ∨
+    (∃ rest, s.queue = Ev.resolve i :: rest ∧ (s'.jobs i).status = Status.resolved) ∨
+    (∃ X rest, s.queue = Ev.reject X :: rest ∧ (i = X ∨ i ∈ (s.jobs X).twins) ∧ (s'.jobs i).status = Status.rejected) := by
+  have hfresh : ∀ {s1 : S}, Obs (tl s) s1 ∨ Obs s s1 → (s1.jobs i).status = (s.jobs i).status := by
+    intro s1 ho
+    have hst : (s1.jobs i).status = (s.jobs i).status ∨ (s.next ≤ i ∧ (s1.jobs i).status = Status.pending) := by
+      rcases ho with o | o
+      · exact o.st i
+      · exact o.st i
+    rcases hst with a | ⟨a1, a2⟩
+    · exact a
+    · rw [a2]; exact (((ht.tok i).2.2 a1).2).symm
+  cases hs with
+  | complete j _ _ => exact Or.inl (hfresh (Or.inr (obs_complete p s j)))
+  | pop _ hq =>
+    cases hqe : s.queue with
+    | nil => exact absurd hqe hq
+    | cons e rest =>
+      rw [pop_eq_handle p s e rest hqe]
+      cases e with
+      | exec j => exact Or.inl (hfresh (Or.inl (obs_execJob p (tl s) j)))
+      | done j f => exact Or.inl (hfresh (Or.inl (obs_doneJob p (tl s) j f)))
+      | resolve j =>
+        have h := (setObs_resolveJob p (tl s) j).1.st i
+        by_cases hij : i = j
+        · subst hij
+          refine Or.inr (Or.inl ⟨rest, rfl, ?_⟩)
+          show ((resolveJob p (tl s) i).jobs i).status = _
+          rw [h]; simp [outcome]
+        · left
+          show ((resolveJob p (tl s) j).jobs i).status = _
+          rw [h]; simp [hij]; rfl
+      | reject j =>
+        have h := (setObs_rejectJob p (tl s) j).st i
+        by_cases hm : i ∈ j :: ((tl s).jobs j).twins
+        · have hm' : i = j ∨ i ∈ (s.jobs j).twins := by
+            rcases List.mem_cons.mp hm with e | e
+            · exact Or.inl e
+            · exact Or.inr e
+          refine Or.inr (Or.inr ⟨j, rest, rfl, hm', ?_⟩)
+          show ((rejectJob p (tl s) j).jobs i).status = _
+          rw [h]; simp only [hm, if_true]; rfl
+        · left
+          show ((rejectJob p (tl s) j).jobs i).status = _
+          rw [h]; simp only [hm, if_false]; rfl
+
+/-- A settled promise keeps its branch. -/
+theorem settled_stable (p : Prog) (s s' : S) (h : Reachable p s) (hs : Step p s s') (j : JobId)
+    (hst : (s.jobs j).status ≠ Status.pending) : (s'.jobs j).status = (s.jobs j).status := by
+  have ht := reachable_tok p s h
+  have h0 : tot s j = 0 := (ht.tok j).2.1 hst
+  rcases step_status p s s' ht hs j with a | ⟨rest, hq, _⟩ | ⟨X, rest, hq, hm, _⟩
+  · exact a
+  · exact absurd (by rw [hq]; simp) (not_mem_of_tot_zero (e := Ev.resolve j) h0 rfl)
+  · have hX : Ev.reject X ∈ s.queue := by rw [hq]; simp
+    rcases hm with e | e
+    · subst e; exact absurd hX (not_mem_of_tot_zero h0 rfl)
+    · have hpX : pend s X := by
+        by_cases hp : pend s X
+        · exact hp
+        · exact absurd hX (not_mem_of_tot_zero ((ht.tok X).2.1 hp) rfl)
+      exact absurd ((ht.tw X j e).1 hpX).1 hst
+
+/-- A collapsed duplicate that has settled has settled like the job it was collapsed onto. -/
+theorem twin_outcome (p : Prog) (s : S) (h : Reachable p s) (X t : JobId) (hm : t ∈ (s.jobs X).twins)
+    (hst : (s.jobs t).status ≠ Status.pending) : (s.jobs t).status = (s.jobs X).status := by
+  obtain ⟨a, b, c, _⟩ := (reachable_tok p s h).tw X t hm
+  rcases status_cases (s.jobs X).status with e | e | e
+  · exact absurd (a e).1 hst
+  · rw [e]
+    rcases status_cases (s.jobs t).status with e' | e' | e'
+    · exact absurd e' hst
+    · exact e'
+    · exact absurd e' (b e)
+  · rw [e]; exact c (by simp) e
+
+/-- The step in which the representative settles settles (rejection) or serves (resolution) every twin. -/
+theorem twin_step (p : Prog) (s s' : S) (h : Reachable p s) (hs : Step p s s') (X t : JobId)
+    (hm : t ∈ (s.jobs X).twins) (hpX : (s.jobs X).status = Status.pending) :
+    ((s'.jobs X).status = Status.rejected → (s'.jobs t).status = Status.rejected) ∧
+    ((s'.jobs X).status = Status.resolved → Ev.done t true ∈ s'.queue) := by
+  have ht := reachable_tok p s h
+  have hnTw : ¬ Tw s X := (ht.tw X t hm).2.2.2.2.2.2.1
+  rcases step_status p s s' ht hs X with a | ⟨rest, hq, a⟩ | ⟨Y, rest, hq, hY, a⟩
+  · rw [a, hpX]; exact ⟨fun h => by simp at h, fun h => by simp at h⟩
+  · refine ⟨fun h => by rw [a] at h; simp at h, fun _ => ?_⟩
+    cases hs with
+    | complete j _ hi =>
+      -- a `complete` step does not change a status
+      have := (obs_complete p s j).st X
+      rcases this with b | ⟨_, b⟩
+      · rw [a, hpX] at b; simp at b
+      · rw [a] at b; simp at b
+    | pop _ _ =>
+      rw [pop_eq_handle p s _ rest hq]
+      exact (setObs_resolveJob p (tl s) X).2 t hm
+  · refine ⟨fun _ => ?_, fun h => by rw [a] at h; simp at h⟩
+    have hXY : X = Y := by
+      rcases hY with e | e
+      · exact e
+      · exact absurd ⟨Y, e⟩ hnTw
+    subst hXY
+    cases hs with
+    | complete j _ hi =>
+      have := (obs_complete p s j).st X
+      rcases this with b | ⟨_, b⟩
+      · rw [a, hpX] at b; simp at b
+      · rw [a] at b; simp at b
+    | pop _ _ =>
+      rw [pop_eq_handle p s _ rest hq]
+      show ((rejectJob p (tl s) X).jobs t).status = _
+      rw [(setObs_rejectJob p (tl s) X).st t]
+      have : t ∈ X :: ((tl s).jobs X).twins := List.mem_cons_of_mem _ hm
+      simp only [this, if_true]; rfl
+
+
+/-! ## part 17: every recorded same-execution entry is the outcome of a job with that key -/
+
+def CseW (p : Prog) (s : S) : Prop :=
+  ∀ e, e ∈ s.cse → ∃ j, j < s.next ∧ (spec p s j).key = e.key ∧ (spec p s j).ctx = e.ctx ∧
+    (spec p s j).prov = true ∧ (s.jobs j).status = outcome e.isErr
+
+theorem outcome_ne_pending (b : Bool) : outcome b ≠ Status.pending := by cases b <;> simp [outcome]
+
+theorem cseW_step {p : Prog} {s s' : S} (b : Bool) (hw : CseW p s) (hnext : s.next ≤ s'.next)
+    (hspec : ∀ i, i < s.next → s'.specOf i = s.specOf i)
+    (hstab : ∀ j, (s.jobs j).status ≠ Status.pending → (s'.jobs j).status = (s.jobs j).status)
+    (hnew : ∀ e, e ∈ s'.cse → e ∈ s.cse ∨ ∃ u, u < s.next ∧ (spec p s u).prov = true ∧ e = entryOf p s u b ∧
+      (s'.jobs u).status = outcome b) : CseW p s' := by
+  have hsp : ∀ i, i < s.next → spec p s' i = spec p s i := by
+    intro i hi; unfold spec; rw [hspec i hi]
+  intro e he
+  rcases hnew e he with a | ⟨u, hu, hp, he', hs'⟩
+  · obtain ⟨j, j1, j2, j3, j4, j5⟩ := hw e a
+    refine ⟨j, Nat.lt_of_lt_of_le j1 hnext, by rw [hsp j j1]; exact j2, by rw [hsp j j1]; exact j3,
+      by rw [hsp j j1]; exact j4, ?_⟩
+    rw [hstab j (by rw [j5]; exact outcome_ne_pending _)]; exact j5
+  · refine ⟨u, Nat.lt_of_lt_of_le hu hnext, ?_, ?_, by rw [hsp u hu]; exact hp, ?_⟩
+    · rw [hsp u hu, he']; rfl
+    · rw [hsp u hu, he']; rfl
+    · rw [hs', he']; rfl
+
+theorem cseW_obs {p : Prog} {s s' : S} (s0 : S) (hw : CseW p s) (hn : s0.next = s.next)
+    (hsp : s0.specOf = s.specOf) (hc : s0.cse = s.cse) (ho : Obs s0 s')
+    (hstab : ∀ j, (s.jobs j).status ≠ Status.pending → (s'.jobs j).status = (s.jobs j).status) : CseW p s' := by
+  refine cseW_step false hw (by rw [← hn]; exact ho.next) (fun i hi => by rw [ho.specOf i (by rw [hn]; exact hi), hsp])
+    hstab ?_
+  intro e he
+  rw [ho.cse, hc] at he
+  exact Or.inl he
+
+theorem step_cseW (p : Prog) (s s' : S) (h : Reachable p s) (hw : CseW p s) (hs : Step p s s') : CseW p s' := by
+  have ht := reachable_tok p s h
+  have hstab := settled_stable p s s' h hs
+  cases hs with
+  | complete j _ _ => exact cseW_obs s hw rfl rfl rfl (obs_complete p s j) hstab
+  | pop _ hq =>
+    cases hqe : s.queue with
+    | nil => exact absurd hqe hq
+    | cons e rest =>
+      rw [pop_eq_handle p s e rest hqe] at hstab ⊢
+      have hf := tok_head_facts e rest hqe ht
+      cases e with
+      | exec j =>
+        change CseW p (execJob p (tl s) j)
+        exact cseW_obs (tl s) hw rfl rfl rfl (obs_execJob p (tl s) j) hstab
+      | done j f =>
+        change CseW p (doneJob p (tl s) j f)
+        exact cseW_obs (tl s) hw rfl rfl rfl (obs_doneJob p (tl s) j f) hstab
+      | resolve j =>
+        have ho := (setObs_resolveJob p (tl s) j).1
+        change CseW p (resolveJob p (tl s) j)
+        refine cseW_step false hw (Nat.le_of_eq ho.next.symm) (fun i _ => by rw [ho.specOf]; rfl) hstab ?_
+        intro e he
+        rcases ho.cse e he with a | ⟨u, hu, hp, he'⟩
+        · exact Or.inl a
+        · have : u = j := by simpa using hu
+          subst this
+          refine Or.inr ⟨u, hf.2.2.2, hp, he', ?_⟩
+          show ((resolveJob p (tl s) u).jobs u).status = _
+          rw [ho.st]; simp
+      | reject j =>
+        have ho := setObs_rejectJob p (tl s) j
+        change CseW p (rejectJob p (tl s) j)
+        refine cseW_step true hw (Nat.le_of_eq ho.next.symm) (fun i _ => by rw [ho.specOf]; rfl) hstab ?_
+        intro e he
+        rcases ho.cse e he with a | ⟨u, hu, hp, he'⟩
+        · exact Or.inl a
+        · refine Or.inr ⟨u, ?_, hp, he', ?_⟩
+          · rcases List.mem_cons.mp hu with e1 | e1
+            · rw [e1]; exact hf.2.2.2
+            · exact (ht.tw j u e1).2.2.2.2.2.2.2.2
+          · show ((rejectJob p (tl s) j).jobs u).status = _
+            rw [ho.st]; simp only [hu, if_true]
+
+theorem reachable_cseW (p : Prog) (s : S) (h : Reachable p s) : CseW p s := by
+  induction h with
+  | init => intro e he; simp [init] at he
+  | step hr hs ih => exact step_cseW p _ _ hr ih hs
+
+
+/-! ## part 18: a same-execution cache hit is served from the outcome of a settled job with that key -/
+
+theorem cseLookup_some {s : S} {sp : Spec} {e : CseEntry} (h : cseLookup s sp = some e) :
+    e ∈ s.cse ∧ e.key = sp.key ∧ (sp.ctx = 0 ∨ e.ctx = sp.ctx) := by
+  unfold cseLookup at h
+  have h1 := List.mem_of_find?_eq_some h
+  have h2 := List.find?_some h
+  simp only [Bool.and_eq_true, Bool.or_eq_true, beq_iff_eq] at h2
+  exact ⟨List.mem_reverse.mp h1, h2.1, h2.2⟩
+
+theorem cse_hit_witness (p : Prog) (s : S) (h : Reachable p s) (sp : Spec) (b : Bool)
+    (hh : cacheLookup s sp = Hit.cse b) :
+    ∃ j, j < s.next ∧ (spec p s j).key = sp.key ∧ (sp.ctx = 0 ∨ (spec p s j).ctx = sp.ctx) ∧
+      (spec p s j).prov = true ∧ (s.jobs j).status = outcome b := by
+  unfold cacheLookup at hh
+  split at hh
+  · simp at hh
+  · split at hh
+    · rename_i e he
+      have hb : e.isErr = b := by simpa using hh
+      have hl : cseLookup s sp = some e := by
+        split at he
+        · exact he
+        · simp at he
+      obtain ⟨hm, hk, hc⟩ := cseLookup_some hl
+      obtain ⟨j, j1, j2, j3, j4, j5⟩ := reachable_cseW p s h e hm
+      refine ⟨j, j1, by rw [j2]; exact hk, ?_, j4, by rw [j5, hb]⟩
+      rcases hc with c | c
+      · exact Or.inl c
+      · exact Or.inr (by rw [j3]; exact c)
+    · split at hh
+      · split at hh <;> simp at hh
+        split at hh <;> simp at hh
+      · simp at hh
+
 end RedunModel.SchedCore
